@@ -144,7 +144,9 @@ pub fn write_key0(dir: &std::path::Path) {
 pub fn cli_repair(exe: &std::path::Path, dir: &std::path::Path, input: &[u8], encrypted: bool, unauth: bool) -> CliRepair {
     let _ = std::fs::write(dir.join("in.mla"), input);
     let _ = std::fs::remove_file(dir.join("out.mla"));
-    let mut args: Vec<String> = vec!["repair".into(), "-l".into(), "-i".into(), "in.mla".into(), "-o".into(), "out.mla".into()];
+    // odd input lengths: the repaired archive is requested on standard output (`-o -`)
+    let to_stdout = input.len() % 2 == 1;
+    let mut args: Vec<String> = vec!["repair".into(), "-l".into(), "-i".into(), "in.mla".into(), "-o".into(), if to_stdout { "-".into() } else { "out.mla".into() }];
     if encrypted {
         args.extend(["-k".to_string(), "key.der".to_string()]);
     }
@@ -152,7 +154,8 @@ pub fn cli_repair(exe: &std::path::Path, dir: &std::path::Path, input: &[u8], en
         args.push("--allow-unauthenticated-data".into());
     }
     let o = crate::cli::run(exe, dir, &args, None);
-    let files = std::fs::read(dir.join("out.mla")).ok().and_then(|b| match guard(|| prog::read_all(&b, &[])) {
+    let produced: Option<Vec<u8>> = if to_stdout { Some(o.stdout.clone()) } else { std::fs::read(dir.join("out.mla")).ok() };
+    let files = produced.and_then(|b| match guard(|| prog::read_all(&b, &[])) {
         Ok(Ok(f)) => Some(f.into_iter().map(|(n, r)| (n, r.data)).collect()),
         _ => None,
     });
